@@ -51,6 +51,8 @@ class Ctx(object):
         self.inputs = {}               # name -> z3 term, the symbolic inputs (for models)
         self.called = False            # set when an instrumented function is entered
         self.extra = None
+        self.var_ranges = {}           # name -> (lo, hi, z3 term): variables usable in affine forms
+        self.floor_of = {}             # str(int term) -> str(real term) it is the floor of
 
     # -- fresh symbols ---------------------------------------------------------
     def fresh(self, prefix, sort='int'):
@@ -196,7 +198,7 @@ def explore(run, post=None, max_paths=200000, feas_timeout_ms=3000, on_path=None
                 if not c.called:
                     raise                     # raised by the harness before the function under test was entered
                 p = Path(c.pc, 'exc', e, c.obligations, c.assumptions, c.inputs, c.notes)
-            if p is not None and post is not None:
+            if p is not None and post is not None and p.outcome != 'oos':
                 try:
                     post(p, c)
                     p.obligations = c.obligations
